@@ -84,9 +84,11 @@ func (w *World) SetCluster(c ClusterSpec) {
 		cr := p.CR()
 		w.BGPAdvs = append(w.BGPAdvs, &cr)
 	}
+	w.Secrets = nil
 	for _, p := range c.Peers {
 		cr := p.CR()
 		w.Peers = append(w.Peers, &cr)
+		w.Secrets = append(w.Secrets, p.SecretCRs()...)
 	}
 	for _, p := range c.Comms {
 		cr := p.CR()
